@@ -5,6 +5,7 @@ Implement YAML document Merger.
 Copyright 2020, 2021 William W. Kimball, Jr. MBA MSIS
 """
 import sys
+from copy import deepcopy
 from os.path import basename
 from typing import Any, Dict, List, Optional, Set, Tuple, Union
 import json
@@ -931,10 +932,22 @@ class Merger:
         # Merge into each insertion point
         merge_performed = False
         lhs_proc = Processor(self.logger, self.data)
-        for node_coord in self._get_merge_target_nodes(
-            insert_at, lhs_proc, rhs
+        for target_idx, node_coord in enumerate(
+            self._get_merge_target_nodes(insert_at, lhs_proc, rhs)
         ):
             target_node = node_coord.node
+            if target_idx > 0 and isinstance(
+                rhs, (CommentedMap, CommentedSeq, CommentedSet)
+            ):
+                # Every further target merges its own copy of RHS lest nodes
+                # adopted by one target -- and changed by merging into
+                # another -- be shared among them.  Anchored nodes are one
+                # node wherever they appear, so they are not copied.
+                rhs_anchors: Dict[str, Any] = {}
+                Anchors.scan_for_anchors(rhs, rhs_anchors)
+                rhs = deepcopy(
+                    rhs, {id(node): node for node in rhs_anchors.values()})
+                self.config.prepare(rhs)
             Parsers.set_flow_style(
                 rhs, (target_node.fa.flow_style()
                       if hasattr(target_node, "fa")
